@@ -3,9 +3,9 @@
 // Contracts for the verification harness in /verif (comment-only; no declarations).
 package informer
 
-//@ pred validInformer(ri) = ri != nil && ri.sharedResourceInformer != nil && ri.sharedResourceInformer.lister != nil && ri.informerWrapper != nil && ri.sharedResourceInformer.close != nil
+//@ pred validInformer(ri) = ri != nil && ri.sharedResourceInformer != nil && ri.sharedResourceInformer.lister != nil && ri.informerWrapper != nil && ri.sharedResourceInformer.close != nil && ri.informerWrapper.sharedResourceInformer == ri.sharedResourceInformer && validSEH(ri.sharedResourceInformer.eventHandlers)
 
-//@ pred validShared(s) = s != nil && s.lister != nil && s.close != nil && s.informer != nil
+//@ pred validShared(s) = s != nil && s.lister != nil && s.close != nil && s.informer != nil && validSEH(s.eventHandlers)
 
 // Representation invariant of the factory: an informer exists for a key exactly while its
 // subscription count is at least one.
@@ -64,6 +64,7 @@ package informer
 //@   ensures [C18] !has(seh.handlers, iw)
 //@   ensures [C18] forall k *informerWrapper :: k != iw ==> has(seh.handlers, k) == old(has(seh.handlers, k)) && seh.handlers[k] == old(seh.handlers[k])
 //@   ensures [C18,C17] !locked(seh)
+//@   writes [C17,C18] seh.handlers
 
 //@ func eventHandler.resync(eh) ()
 //@   requires eh != nil && eh.ResourceEventHandler != nil && validSEH(eh.sharedEventHandler)
@@ -111,6 +112,10 @@ package informer
 //@   requires forall j int :: 0 <= j && j < len(iw.sharedResourceInformer.eventHandlers.handlers[iw]) ==> iw.sharedResourceInformer.eventHandlers.handlers[iw][j] != nil
 //@   safety C13,C18
 //@   at sharedEventHandler.removeHandlers(s, w) [C18]: w == iw && s == iw.sharedResourceInformer.eventHandlers
+//@   let seh = iw.sharedResourceInformer.eventHandlers
+//@   ensures [C18] !has(seh.handlers, iw)
+//@   ensures [C18] forall k *informerWrapper :: k != iw ==> has(seh.handlers, k) == old(has(seh.handlers, k)) && seh.handlers[k] == old(seh.handlers[k])
+//@   writes [C17,C18] iw.sharedResourceInformer.eventHandlers.handlers
 
 //@ func informerWrapper.AddEventHandler(iw, handler) (reg, err)
 //@   requires iw != nil && iw.sharedResourceInformer != nil && validSEH(iw.sharedResourceInformer.eventHandlers) && handler != nil
